@@ -1,4 +1,3 @@
-use std::cmp::max;
 use std::fmt;
 
 use crate::common::position::{CaretPos, Position};
@@ -11,17 +10,29 @@ pub struct Lex {
 
 impl Lex {
     pub fn new(start: CaretPos, token: Token) -> Self {
-        let end = if let Token::Str(_str, _) = &token {
-            start.offset_line(max((_str.lines().count() as i32 - 1) as usize, 0))
-        } else if let Token::DocStr(_str) = &token {
-            start.offset_line(max((_str.lines().count() as i32 - 1) as usize, 0))
-        } else {
-            start
-        };
-
-        let end = end.offset_pos(token.clone().width());
+        let end = Lex::end_of(start, &token);
         let pos = Position { start, end };
         Lex { pos, token }
+    }
+
+    /// Position directly after token if it starts at start.
+    ///
+    /// Strings may span multiple lines, in which case the token ends after the closing
+    /// quote(s) on the line of its last newline.
+    pub fn end_of(start: CaretPos, token: &Token) -> CaretPos {
+        let (string, quotes) = match token {
+            Token::Str(string, _) => (string, 1),
+            Token::DocStr(string) => (string, 3),
+            _ => return start.offset_pos(token.width()),
+        };
+
+        if let Some(last_newline) = string.rfind('\n') {
+            let lines = string.matches('\n').count();
+            let last_line_width = string.len() - last_newline - 1;
+            CaretPos::new(start.line + lines, last_line_width + quotes + 1)
+        } else {
+            start.offset_pos(token.width())
+        }
     }
 }
 
@@ -136,7 +147,11 @@ pub enum Token {
 
 impl Token {
     pub fn width(&self) -> usize {
-        self.to_string().len()
+        match self {
+            // Displayed with a prefix, in the source it is surrounded by three quotes
+            Token::DocStr(string) => string.len() + 6,
+            _ => self.to_string().len(),
+        }
     }
 
     pub fn same_type(left: &Token, right: &Token) -> bool {
